@@ -222,7 +222,14 @@ func tableLayout(context *layoutContext, table_ bo.TableBoxITF, bottomSpace pr.F
 					cell_ = bo.CopyWithChildren(cell_, nil)
 					cell_, _, _ = blockContainerLayout(context, cell_, bottomSpace, cellSkipStack, true,
 						new([]*AbsolutePlaceholder), new([]*AbsolutePlaceholder), new([]pr.Float), false, -1)
-					cellResumeAt = tree.ResumeStack{0: nil}
+					// nothing of the cell fits on this page: resume it where this
+					// layout started (a cell continued from the previous page must not
+					// start again from its first child)
+					if cellSkipStack != nil {
+						cellResumeAt = cellSkipStack
+					} else {
+						cellResumeAt = tree.ResumeStack{0: nil}
+					}
 				} else {
 					cell_ = newCell
 				}
